@@ -687,6 +687,11 @@ package calendar
 //@ # ================================================================ C08: every exported zero-argument accessor is total
 //@ # Safety-only contracts: under the receiver's type invariant the method returns without panicking - every index is
 //@ # in range, no nil dereference, no failing type assertion, no division by zero, every callee precondition holds.
+//@ # the eight-character object is created on first use and kept; the memo field is touched nowhere else (structural scan)
+//@ func (lunar *Lunar) GetEightChar() *EightChar [C08 C11]
+//@   memo lunar.eightChar
+//@   ensures result != nil
+
 //@ sweep Solar: 1 <= self.year && self.year <= 9998 [C08]
 //@ sweep SolarWeek: weekOK(self) && jdnInRange(jdn(self.year, self.month, self.day)-6) && jdnInRange(jdn(self.year, self.month, self.day)+6) [C08]
 //@ sweep SolarMonth: inYears(self.year) && 1 <= self.month && self.month <= 12 [C08]
@@ -1067,3 +1072,36 @@ package calendar
 //@   ghost c *Solar = jq.NextDay(offset+40) @ offset#4
 //@   use solarOrder(c, lunar.solar) @ offset#4
 
+
+//@ # ================================================================ C10: the reverse lookup's final filter
+//@ # ListSolarFromBaZiBySectAndBaseYear itself is outside the verified subset (arbitrary input strings, time.Now, an
+//@ # unbounded result list) and is covered by the bounded stand-in bazi_reverse. What is proved here is that the strings
+//@ # its final filter compares are the names of the pillar indices specified under C05 (day pillar by convention), so a
+//@ # moment that passes the filter has the four requested pillars.
+//@ ghost func filterPillars(l *Lunar) [C10]
+//@   body
+//@     assert(l.GetYearInGanZhiExact() == LunarUtil.GAN[l.yearGanIndexExact+1]+LunarUtil.ZHI[l.yearZhiIndexExact+1])
+//@     assert(l.GetMonthInGanZhiExact() == LunarUtil.GAN[l.monthGanIndexExact+1]+LunarUtil.ZHI[l.monthZhiIndexExact+1])
+//@     assert(l.GetDayInGanZhiExact() == LunarUtil.GAN[l.dayGanIndexExact+1]+LunarUtil.ZHI[l.dayZhiIndexExact+1])
+//@     assert(l.GetDayInGanZhiExact2() == LunarUtil.GAN[l.dayGanIndexExact2+1]+LunarUtil.ZHI[l.dayZhiIndexExact2+1])
+//@     assert(l.GetTimeInGanZhi() == LunarUtil.GAN[l.timeGanIndex+1]+LunarUtil.ZHI[l.timeZhiIndex+1])
+
+//@ # ================================================================ C14: pay-rate multiplier
+//@ # 3 on the statutory festival days (1 January, lunar 1-1..1-3, the Qingming day, 1 May, lunar 5-5, lunar 8-15,
+//@ # 1..3 October), 2 on other days off (a recorded holiday that is not a make-up working day, or an unrecorded
+//@ # Saturday/Sunday), 1 otherwise. The record set is abstract (HolidayUtil.recorded / makeup).
+//@ spec func lunarMonthOf(s *Solar) int
+//@   = mMat(s.year, midx(s.year, sjdn(s)))
+//@ spec func lunarDayOf(s *Solar) int
+//@   = sjdn(s) - mFat(s.year, midx(s.year, sjdn(s))) + 1
+//@ spec func statutoryDay(s *Solar) bool
+//@   = (s.month == 1 && s.day == 1) || (s.month == 5 && s.day == 1) || (s.month == 10 && 1 <= s.day && s.day <= 3) ||
+//@     (lunarMonthOf(s) == 1 && 1 <= lunarDayOf(s) && lunarDayOf(s) <= 3) || (lunarMonthOf(s) == 5 && lunarDayOf(s) == 5) || (lunarMonthOf(s) == 8 && lunarDayOf(s) == 15) ||
+//@     sjdn(s) == divf(nsec(jq(s.year, 8))+43200, 86400)
+//@ spec func dayOff(s *Solar) bool
+//@   = ite(recorded(s.year, s.month, s.day), !makeup(s.year, s.month, s.day), wd(s.year, s.month, s.day) == 6 || wd(s.year, s.month, s.day) == 0)
+//@ func (solar *Solar) GetSalaryRate() int [C14]
+//@   requires 1 <= solar.year && solar.year <= 9998
+//@   ensures result == ite(statutoryDay(solar), 3, ite(dayOff(solar), 2, 1))
+//@   use solarOrder(jqs(lunar, 8), solar) @ lunar#1
+//@   hint lunar#1: lunar.month == lunarMonthOf(solar) && lunar.day == lunarDayOf(solar) && sameDay(jqs(lunar, 8), solar) == (sjdn(solar) == divf(nsec(jq(solar.year, 8))+43200, 86400))
